@@ -104,6 +104,38 @@ def masked_by_harmless_union(cx, b1, b2, info):
     return any(pairs.mentions([txt], a) for a in info["affected"])
 
 
+BELOW_UNION = "harmful-category-lost-at-non-canonical-diff-node"
+
+
+def harmful_hidden_below_union(cx, b1, b2):
+    """Third shape of the masking defect, in cyclic types: a diff node that is not its own canonical node (the same pair of
+    types was already met further down, e.g. union un1 -> st2* -> struct st2 -> un1) carries a harmful category
+    (SIZE_OR_OFFSET_CHANGE_CATEGORY ...), but its parent does not: propagation reads the category of the *canonical* node,
+    which was computed inside the cycle and holds harmless categories only.  Everything above -- up to the function / variable
+    diff node -- is then harmless-only and the default reporter filters the interface.  Recognised from the tool's own diff
+    tree: such a (parent, non-canonical child) pair exists, no interface-level node carries a harmful category, and --harmless
+    does report the change."""
+    t = pairs.abidiff(cx, b1, b2, ["--dump-diff-tree"])
+    if cbuild.crashed(t):
+        return False
+    nodes = pairs.diff_tree_full(t.etext())
+    if not nodes:
+        return False
+    top = min(n[0] for n in nodes)
+    hit = False
+    for k, (ind, kind, subj, cats, addr, canon) in enumerate(nodes):
+        if ind == top and cats & pairs.HARMFUL_CATS:
+            return False            # an interface's own node is harmful: its silence is not explained by this defect
+        if cats & pairs.HARMFUL_CATS and addr and canon and addr != canon and ind > top:
+            pk = next((j for j in range(k - 1, -1, -1) if nodes[j][0] < ind), None)
+            if pk is not None and not nodes[pk][3] & pairs.HARMFUL_CATS and nodes[pk][3] & pairs.HARMLESS_CATS:
+                hit = True
+    if not hit:
+        return False
+    h = pairs.abidiff(cx, b1, b2, ["--harmless"])
+    return not cbuild.crashed(h) and bool(h.rc & R.STATUS_CHANGE) and not h.rc & R.STATUS_ERROR
+
+
 def run_case(case, cx):
     m, m2, info, cfg = case["model"], case["mutant"], case["info"], case["cfg"]
     if m2 is None:
@@ -134,6 +166,9 @@ def run_case(case, cx):
         if info["kind"] in ("member_type", "reorder_members", "enumerator_value") and \
                 pairs.only_harmless_categories_in_tree(cx, b1, b2):
             cx.violation(MASKED2, det)
+            return
+        if harmful_hidden_below_union(cx, b1, b2):
+            cx.violation(BELOW_UNION, det)
             return
         cx.violation("not-reported:" + info["kind"], det)
         return
